@@ -2,7 +2,13 @@
         for s in &mut parsed_data.structs {
             debug!("struct: {}", s.id.original);
             for f in &mut s.fields {
-                check_type(crate_name, &serde_renamed, &import_types, &mut f.ty);
+                check_type(
+                    crate_name,
+                    &serde_renamed,
+                    &import_types,
+                    &s.generic_types,
+                    &mut f.ty,
+                );
             }
         }
 
@@ -14,12 +20,14 @@
                     crate_name,
                     &serde_renamed,
                     &import_types,
+                    &shared.generic_types,
                     &mut shared.variants,
                 ),
                 RustEnum::Algebraic { shared, .. } => check_variant(
                     crate_name,
                     &serde_renamed,
                     &import_types,
+                    &shared.generic_types,
                     &mut shared.variants,
                 ),
             }
@@ -27,7 +35,13 @@
 
         // update references to renamed ids in aliases.
         for a in &mut parsed_data.aliases {
-            check_type(crate_name, &serde_renamed, &import_types, &mut a.r#type);
+            check_type(
+                crate_name,
+                &serde_renamed,
+                &import_types,
+                &a.generic_types,
+                &mut a.r#type,
+            );
         }
 
         // Apply sorting to types for deterministic output.
